@@ -633,6 +633,9 @@ const STATIC_NAMES: &[&str] = &[
     // names that collide with url directory prefixes (`to/…`, `pkg/1.0/…`, `v1.2/x/…`): a hashed `to-<hash>.css`
     // sorts before `to/…` in byte order ('-' < '.' < '/'), after it in path-component order
     "to.css", "to-x.css", "to x.css", "pkg.js", "pkg-1.js", "v1.2.css", "to", "to.", "inner.css", "inner-a.css",
+    // stems that end like a content hash (`-` and eight characters of the hash alphabet); names whose first letter or digit
+    // comes after leading punctuation
+    "site-settings.css", "img-carousel.js", "report-20260930.js", "x-abcdefgh.css", "theme-dark_red.css", "_1.js", "-2x.png", ".3d.obj", "__404__.html",
     // punctuation in the extension
     "index.html~", "hello.c++", "7.tar-gz", "notes.txt#1", "a.b c", "x.y_z", "x.(1)", "q.a'b", "w.$$", "e.@", "r.{}", "t.[0]", "y.%20", "u.=", "i.!",
 ];
@@ -753,6 +756,20 @@ fn statics_scenario(r: &mut Rng, twin: usize) -> Scenario {
                 }
             }
             _ => script.push(SOp::B(format!("virtual/{n}"), rand_content(r))),
+        }
+    }
+    if r.chance(1, 6) {
+        // two contents whose MD5 digests agree in their first 48 bits, i.e. in the whole 8-character slug (found by
+        // cycle search): the files are different files, each with its own bytes, whatever is keyed on the slug
+        let (c1, c2): (&[u8], &[u8]) = (b"/* theme 48cf88cf71cd */\nbody{margin:0}\n", b"/* theme ed2535160a8a */\nbody{margin:0}\n");
+        if r.chance(1, 2) {
+            script.push(SOp::B("virtual/day.css".into(), c1.to_vec()));
+            script.push(SOp::B("virtual/night.css".into(), c2.to_vec()));
+        } else {
+            steps.push(Step::Write("single/day.css".into(), c1.to_vec()));
+            steps.push(Step::Write("single/dark.css".into(), c2.to_vec()));
+            script.push(SOp::F("single/day.css".into()));
+            script.push(SOp::F("single/dark.css".into()));
         }
     }
     if r.chance(1, 2) {
